@@ -45,6 +45,70 @@ def walk(program, view, fn, _depth=0):
                 for m in walk(program, view, r[1], _depth + 1):
                     yield m
 
+class _Subst(ast.NodeTransformer):
+    def __init__(self, mapping):
+        self.mapping = mapping
+
+    def visit_Name(self, n):
+        if isinstance(n.ctx, ast.Load) and n.id in self.mapping:
+            import copy
+            return copy.deepcopy(self.mapping[n.id])
+        return n
+
+
+def record_constructions(program, view, fn, ctor="DataRecord", _depth=0):
+    """the `ctor(...)` constructions performed by fn, directly or through a newly extracted helper that forwards keyword arguments
+    (`helper(individual, a=..., b=...)` -> `ctor(x=..., **fields)`): -> list of (location node, {field: value expr in fn's own terms})"""
+    import copy
+    out = []
+    for n in ast.walk(fn):
+        if not isinstance(n, ast.Call):
+            continue
+        if call_name(n) == ctor:
+            if any(k.arg is None for k in n.keywords):
+                continue        # `**fields` of a forwarding helper: only meaningful through its callers
+            out.append((n, {k.arg: k.value for k in n.keywords}))
+        elif (_depth < 3 and isinstance(n.func, ast.Attribute) and isinstance(n.func.value, ast.Name) and n.func.value.id == "self" and n.func.attr not in ANCHOR_METHODS):
+            r = view.resolve(n.func.attr)
+            if r is None:
+                continue
+            h = r[1]
+            params = [a.arg for a in h.args.args][1:]
+            mapping = {}
+            for pn, a in zip(params, n.args):
+                mapping[pn] = a
+            extra = {}
+            for k in n.keywords:
+                if k.arg is None:
+                    continue
+                if k.arg in params:
+                    mapping[k.arg] = k.value
+                else:
+                    extra[k.arg] = k.value
+            for pn, d in zip(params[len(params) - len(h.args.defaults):], h.args.defaults):
+                mapping.setdefault(pn, d)
+            kwname = h.args.kwarg.arg if h.args.kwarg else None
+            for c in ast.walk(h):
+                if isinstance(c, ast.Call) and call_name(c) == ctor:
+                    fields = {}
+                    fwd = False
+                    for k in c.keywords:
+                        if k.arg is None:
+                            fwd = fwd or (isinstance(k.value, ast.Name) and k.value.id == kwname)
+                        else:
+                            v = _Subst(mapping).visit(copy.deepcopy(k.value))
+                            ast.fix_missing_locations(v)
+                            fields[k.arg] = v
+                    if fwd:
+                        fields.update(extra)
+                    out.append((n, fields))
+            # deeper chains: helper calling another helper
+            if not any(isinstance(c, ast.Call) and call_name(c) == ctor for c in ast.walk(h)):
+                for loc_node, fields in record_constructions(program, view, h, ctor, _depth + 1):
+                    out.append((n, {f: ast.fix_missing_locations(_Subst(mapping).visit(copy.deepcopy(v))) for f, v in fields.items()}))
+    return out
+
+
 INS_OPS = {"append": "ins", "insert": "ins"}
 REM_OPS = {"remove": "rem", "pop": "rem"}
 OTHER_MUT = {"extend", "clear", "sort", "reverse"}
@@ -289,7 +353,7 @@ def check_pairing(ctx, ob, program, views, pairing, skip_methods=("__init__",), 
                     continue
                 cls, fn = view.resolve(m)
                 w = Walker(program, view, keep=pairing.relevant,
-                           inline=lambda ev: ev.d["meth"] in unbalanced, loop_iters=loop_iters)
+                           inline=lambda ev: ev.d["meth"] in unbalanced or new_helper(ev), loop_iters=loop_iters)
                 bad = []
                 paths = w.paths_of(cls, fn)
                 ctx.count("paths:" + pairing.rule_id, len(paths))
